@@ -440,13 +440,16 @@ class Gate:
         self.loop = loop
         self.arrived = loop.create_future()
         self.go = loop.create_future()
+        self.opened = False
 
     async def wait(self):
         if not self.arrived.done():
             self.arrived.set_result(None)
-        await self.go
+        # shielded: cancelling the waiter must not cancel the gate itself
+        await asyncio.shield(self.go)
 
     def open(self):
+        self.opened = True
         if not self.go.done():
             self.go.set_result(None)
 
@@ -549,7 +552,12 @@ class Net:
 
     # -- ledger helpers
     def server_side_open(self):
-        return sorted(t.name for t in self.open_transports if t.name.startswith("s"))
+        """server-side transports on which close() has not been requested"""
+        return sorted(t.name for t in self.open_transports if t.name.startswith("s") and not t.closing)
+
+    def server_side_closing(self):
+        """close() requested but the buffer could not be flushed yet (peer not reading)"""
+        return sorted(t.name for t in self.open_transports if t.name.startswith("s") and t.closing)
 
     def client_side_open(self):
         return sorted(t.name for t in self.open_transports if t.name.startswith("c"))
